@@ -40,6 +40,8 @@ BackList(bs) ==
     (* a prologue that is not Rust: the build fails (every time) when the output cannot be pretty-printed *)
     [] bs = "badpro"   -> <<Backend("rust", "this is not rust (", NoText)>>
     [] bs = "comment"  -> <<Backend("rust", ProComment, Epi(1))>>
+    (* one braced block that states two prologues *)
+    [] bs = "twopro"   -> <<Backend("rust", Pro(1), Epi(1)) @@ [pro2 |-> Pro(2)]>>
     [] OTHER           -> <<Backend("cpp", "pub const CPP_3: u32 = 4;", NoText)>>
 
 ModA(bs, col) ==
@@ -104,7 +106,7 @@ ExpectedFile(m) ==
                \cup {m.defs[i].name \o "Vftable" : i \in {j \in DOMAIN m.defs : m.defs[j].k = "type" /\ m.defs[j].vft.has}},
    enums |-> {m.defs[i].name : i \in {j \in DOMAIN m.defs : m.defs[j].k = "enum"}},
    accessors |-> [i \in DOMAIN m.evals |-> m.evals[i].name],
-   pro |-> Texts(m, "pro"), epi |-> Texts(m, "epi"), doc |-> m.doc]
+   pro |-> DeclTexts(m, "pro"), epi |-> DeclTexts(m, "epi"), doc |-> m.doc]
 
 Inv_C14 ==
   Terminal =>
